@@ -1934,7 +1934,10 @@ func (c *Cache) additionalAnswer(ctx context.Context, msg *dns.Msg) *dns.Msg {
 
 		if answer.Header().Rrtype == dns.TypeCNAME {
 			cr := answer.(*dns.CNAME)
-			if cr.Target == q.Name {
+			// Names compare without regard to letter case (RFC 4343): an
+			// alias onto its own owner in another spelling is the same
+			// loop, and the key it would be cached under folds case too.
+			if strings.EqualFold(cr.Target, q.Name) {
 				return dnsutil.SetRcode(msg, dns.RcodeServerFailure, false)
 			}
 			cnameReq.SetQuestion(cr.Target, q.Qtype)
@@ -2023,7 +2026,7 @@ func (c *Cache) additionalAnswer(ctx context.Context, msg *dns.Msg) *dns.Msg {
 			}
 		}
 
-		if target == q.Name {
+		if strings.EqualFold(target, q.Name) {
 			return dnsutil.SetRcode(msg, dns.RcodeServerFailure, false)
 		}
 
